@@ -16,7 +16,6 @@ import SpecKitV.Props.C01
 #print axioms swap_channels
 #print axioms conditioned_sum
 #print axioms residual_identity
-#print axioms residual_identity'
 #print axioms residual_eq_GyyRx
 #print axioms auto_consistent
 #print axioms auto_is_diag
